@@ -51,6 +51,12 @@ def nested(rng, depth=2):
     return {rng.choice(['p', 'q', 'r', 'k1', 'k 2', 'ü']): nested(rng, depth - 1) for _ in range(rng.randint(0, 3))}
 
 
+# names that start with (or are) a keyword of the query language: they must behave like any other name
+TRICKY = ['only_x', 'dropped', 'include_me', 'except1', 'asc_col', 'descr', 'by_x', 'as_y', 'from_z', 'nodrop_q', 'limit2',
+          'count_x', 'sum_total', 'p50x', 'true_x', 'nullable', 'iffy', 'android', 'orange', 'nothing', 'json_s', 'where_w',
+          'on_x', 'sorted', 'total_x', 'min_v', 'splits', 'timeslice_t', 'avg_a', 'parsed', 'fields_n', 'logfmt_l', 'if', 'by', 'as', 'on']
+
+
 def gen_row(rng, i, rich=True):
     """a row over the standard schema; fields go missing with some probability"""
     row = {'id': i}
@@ -73,6 +79,9 @@ def gen_row(rng, i, rich=True):
         row['arr'] = [scalar(rng, rich) for _ in range(rng.randint(0, 4))]
     if rng.random() < 0.4:
         row['obj'] = {'p': scalar(rng, rich), 'q': nested(rng, 2)}
+    if rng.random() < 0.3:
+        for name in rng.sample(TRICKY, rng.randint(1, 3)):
+            row[name] = small_int(rng)
     return row
 
 
@@ -89,6 +98,8 @@ ANY_COLS = ['a', 'b', 'g', 'id', 'k', 's', 't', 'flag', 'arr', 'obj', 'nope']
 
 
 def col_ref(rng, cols=None):
+    if cols is None and rng.random() < 0.1:
+        return col(rng.choice(TRICKY))
     cols = cols or ANY_COLS
     c = rng.choice(cols)
     if c == 'arr' and rng.random() < 0.6:
@@ -243,9 +254,9 @@ def inline_stage(rng, cols=None, after_agg=False):
     if r < 0.25:
         return ('where', bool_expr(rng, 2, cols))
     if r < 0.45:
-        return ('let', any_expr(rng, 2, cols), rng.choice(['r', 'r2', 'a', 'k', 'new col']))
+        return ('let', any_expr(rng, 2, cols), rng.choice(['r', 'r2', 'a', 'k', 'new col', 'as_y', 'sorted', 'only_x']))
     if r < 0.58:
-        names = cols or ANY_COLS
+        names = cols or (ANY_COLS + rng.sample(TRICKY, 4))
         return ('fields', rng.choice(['only', 'except']), rng.sample(names, rng.randint(1, min(3, len(names)))))
     if r < 0.72:
         return ('limit', rng.choice([1, 2, 3, 5, -1, -2, -4, None]))
@@ -257,6 +268,6 @@ def inline_stage(rng, cols=None, after_agg=False):
 
 
 def sort_stage(rng, cols=None):
-    c = cols or ['a', 'b', 'g', 'k', 's', 'id', 'flag']
+    c = cols or ['a', 'b', 'g', 'k', 's', 'id', 'flag', 'descr', 'asc_col', 'by_x']
     keys = [col(rng.choice(c)) if rng.random() < 0.85 else num_expr(rng, 1, NUM_COLS) for _ in range(rng.randint(1, 3))]
     return ('sort', keys, rng.choice([None, 'asc', 'desc']))
